@@ -1,0 +1,27 @@
+//go:build verif
+
+// Contracts for govc (contract-based deductive verification, see /verif/DESIGN.md).
+// Comment-only file: it contains no code and is compiled only under the verif tag.
+
+package server
+
+// ---------------------------------------------------------------- publishing a snapshot directory (C16)
+// protocol order: the flag file is written (and synced) inside the TEMPORARY directory first;
+// only then is the directory renamed to its final name. A crash can therefore never leave a
+// final-named directory with a torn or missing flag file.
+
+//@ func (se *SSEnv) createFlagFile [C16]
+//@ modifies fileutil.gFlagDir
+//@ ensures result == nil ==> fileutil.gFlagDir == se.tmpDir
+
+//@ func (se *SSEnv) finalDirExists [C16]
+//@ trusted file-system query
+
+//@ func (se *SSEnv) renameToFinalDir [C16]
+//@ trusted file-system effects (rename + directory sync)
+//@ requires fileutil.gFlagDir == se.tmpDir
+
+//@ func (se *SSEnv) FinalizeSnapshot [C16]
+//@ noframe
+//@ modifies fileutil.gFlagDir, held(finalizeLock)
+//@ ensures result == nil ==> fileutil.gFlagDir == se.tmpDir
